@@ -90,50 +90,50 @@ type Effect struct {
 }
 
 var mutatorTable = map[string]string{
-	"(*hotline.fileWrapper).Delete":          "fs.delete",
-	"(hotline.FileStore).Remove":             "fs.delete",
-	"(hotline.FileStore).RemoveAll":          "fs.delete",
-	"os.Remove":                              "fs.delete",
-	"os.RemoveAll":                           "fs.delete",
-	"(*hotline.fileWrapper).Move":            "fs.move",
-	"(hotline.FileStore).Rename":             "fs.move",
-	"os.Rename":                              "fs.move",
-	"(hotline.FileStore).Mkdir":              "fs.mkdir",
-	"os.Mkdir":                               "fs.mkdir",
-	"os.MkdirAll":                            "fs.mkdir",
-	"(hotline.FileStore).Symlink":            "fs.symlink",
-	"os.Symlink":                             "fs.symlink",
-	"os.Link":                                "fs.symlink",
-	"(*hotline.fileWrapper).InfoForkWriter":  "fs.comment",
-	"(*hotline.fileWrapper).rsrcForkWriter":  "fs.comment",
-	"(*hotline.fileWrapper).incFileWriter":   "fs.comment",
-	"(hotline.FileStore).WriteFile":          "fs.comment",
-	"(hotline.FileStore).Create":             "fs.comment",
-	"(hotline.FileStore).OpenFile":           "fs.comment",
-	"os.WriteFile":                           "fs.comment",
-	"os.Create":                              "fs.comment",
-	"os.OpenFile":                            "fs.comment",
-	"os.Truncate":                            "fs.comment",
-	"os.Chmod":                               "fs.comment",
-	"(*hotline.ClientConn).NewFileTransfer":  "xfer.grant",
-	"(hotline.FileTransferMgr).Add":          "xfer.grant",
-	"(hotline.AccountManager).Create":        "acct.create",
-	"(hotline.AccountManager).Update":        "acct.update",
-	"(hotline.AccountManager).Delete":        "acct.delete",
-	"(hotline.ThreadedNewsMgr).PostArticle":  "news.post",
-	"(hotline.ThreadedNewsMgr).DeleteArticle": "news.delart",
+	"(*hotline.fileWrapper).Delete":            "fs.delete",
+	"(hotline.FileStore).Remove":               "fs.delete",
+	"(hotline.FileStore).RemoveAll":            "fs.delete",
+	"os.Remove":                                "fs.delete",
+	"os.RemoveAll":                             "fs.delete",
+	"(*hotline.fileWrapper).Move":              "fs.move",
+	"(hotline.FileStore).Rename":               "fs.move",
+	"os.Rename":                                "fs.move",
+	"(hotline.FileStore).Mkdir":                "fs.mkdir",
+	"os.Mkdir":                                 "fs.mkdir",
+	"os.MkdirAll":                              "fs.mkdir",
+	"(hotline.FileStore).Symlink":              "fs.symlink",
+	"os.Symlink":                               "fs.symlink",
+	"os.Link":                                  "fs.symlink",
+	"(*hotline.fileWrapper).InfoForkWriter":    "fs.comment",
+	"(*hotline.fileWrapper).rsrcForkWriter":    "fs.comment",
+	"(*hotline.fileWrapper).incFileWriter":     "fs.comment",
+	"(hotline.FileStore).WriteFile":            "fs.comment",
+	"(hotline.FileStore).Create":               "fs.comment",
+	"(hotline.FileStore).OpenFile":             "fs.comment",
+	"os.WriteFile":                             "fs.comment",
+	"os.Create":                                "fs.comment",
+	"os.OpenFile":                              "fs.comment",
+	"os.Truncate":                              "fs.comment",
+	"os.Chmod":                                 "fs.comment",
+	"(*hotline.ClientConn).NewFileTransfer":    "xfer.grant",
+	"(hotline.FileTransferMgr).Add":            "xfer.grant",
+	"(hotline.AccountManager).Create":          "acct.create",
+	"(hotline.AccountManager).Update":          "acct.update",
+	"(hotline.AccountManager).Delete":          "acct.delete",
+	"(hotline.ThreadedNewsMgr).PostArticle":    "news.post",
+	"(hotline.ThreadedNewsMgr).DeleteArticle":  "news.delart",
 	"(hotline.ThreadedNewsMgr).CreateGrouping": "news.create",
 	"(hotline.ThreadedNewsMgr).DeleteNewsItem": "news.delitem",
-	"(hotline.ChatManager).New":              "chat.new",
-	"(hotline.BanMgr).Add":                   "ban.add",
-	"(*hotline.ClientConn).Disconnect":       "disconnect",
-	"(hotline.ClientManager).Add":            "registry.add",
-	"(hotline.ClientManager).Delete":         "registry.delete",
-	"(*hotline.Server).NewClientConn":        "registry.add",
-	"(*hotline.ClientConn).SendAll":          "send.others",
-	"(*hotline.ClientConn).NotifyOthers":     "send.others",
-	"(*hotline.Server).SendAll":              "send.others",
-	"(*hotline.Server).Shutdown":             "send.others",
+	"(hotline.ChatManager).New":                "chat.new",
+	"(hotline.BanMgr).Add":                     "ban.add",
+	"(*hotline.ClientConn).Disconnect":         "disconnect",
+	"(hotline.ClientManager).Add":              "registry.add",
+	"(hotline.ClientManager).Delete":           "registry.delete",
+	"(*hotline.Server).NewClientConn":          "registry.add",
+	"(*hotline.ClientConn).SendAll":            "send.others",
+	"(*hotline.ClientConn).NotifyOthers":       "send.others",
+	"(*hotline.Server).SendAll":                "send.others",
+	"(*hotline.Server).Shutdown":               "send.others",
 }
 
 // reader callees: an effect only when the result is disclosed in a reply/transaction.
